@@ -136,6 +136,8 @@ def digits(v, base):
 
 def underscore_variants(ds):
     out = {ds, "0" + ds, "00" + ds, ds + "_", ds + "__", ds.upper()}
+    # zero padding wider than any type, with separators inside the run of zeros
+    out.update({"0_0" + ds, "0_" + ds, "0000_00" + ds, "00_000_" + ds + "_"})
     if len(ds) > 1:
         out.add(ds[0] + "_" + ds[1:])
         out.add(ds[:-1] + "__" + ds[-1])
@@ -209,6 +211,14 @@ PASS_THROUGH = [
     "5u8", "0xffu64", "1_000usize", "1.5f32", "0x1B8", "0x12B8", "0x1_2B8", "0xFF_FFB8", "0xBBBB_B432_B245_B323_u64", '"5U8"', "'U'", 'b"U8"', "1e3f64", "0b101u8", "0o17i32",
     "7", "0x10", "true", "(1u8, 2u16)", "[1u8, 2u8]", "{ 3u32 }", "((((4i64))))", "[[1u8; 2]; 2]", "{ [(5u8,)] }", "\"0x5_U8\"", "0xB8", "0x0B8", "1i128",
 ]
+# string / char literals with multi-byte characters at every alignment relative to BOTH ends (a macro that slices the
+# literal's text at a byte offset must not land inside a character)
+for _c in ("\u00e9", "\u20ac", "\U0001F600"):
+    for _j in range(4):
+        for _k in (1, 2, 3, 5):
+            for _i in range(9):
+                PASS_THROUGH.append('"' + "a" * _j + _c * _k + "b" * _i + '"')
+PASS_THROUGH += ['"temp\u00e9rature"', '"\u03b1\u03b2\u03b3\u03b4\u03b5\u03b6\u03b7\u03b8"', '"\u6570\u5024\u30ea\u30c6\u30e9\u30eb"', "'\u00e9'", "'\u20ac'", 'r"\u00e9\u00e9\u00e9\u00e9U8"', 'r#"\u20ac\u20ac\u20ac"#', 'b"abcdefghU8"']
 NESTED_LITS = [
     # (program fragment inside uint!, expected list of (bits, value))
     ("5_U8", [(8, 5)]), ("((((5_U8))))", [(8, 5)]), ("[1_U8, 2_U8][1]", [(8, 2)]), ("{ let x = 3_U65; x }", [(65, 3)]), ("{ [({ 7_U9 },)] }[0].0", [(9, 7)]),
@@ -217,6 +227,9 @@ NESTED_LITS = [
     # deep nesting: 65, 100 and 200 groups around one literal, in parentheses, blocks and mixed with a call
     ("(" * 65 + "5_U8" + ")" * 65, [(8, 5)]), ("{" * 100 + " 7_U9 " + "}" * 100, [(9, 7)]), ("({" * 100 + " 3_U65 " + "})" * 100, [(65, 3)]),
     ("id(" * 70 + "0xff_U8" + ")" * 70, [(8, 255)]),
+    # doc comments are literals too (#[doc = "..."]): multi-byte text at several alignments
+    ("{ /** Puffergr\u00f6\u00dfe in W\u00f6rtern. */ let x = 5_U8; x }", [(8, 5)]), ("{ /** \u00e9 */ let x = 6_U8; x }", [(8, 6)]), ("{ /** a\u20ac\u20ac\u20ac\u20acbcdefg */ let x = 7_U8; x }", [(8, 7)]),
+    ("{ /** \u6570\u5024\u30ea\u30c6\u30e9\u30eb */ let x = 8_U8; x }", [(8, 8)]), ("{ /** \U0001F600\U0001F600\U0001F600 1U8 */ let x = 9_U8; x }", [(8, 9)]),
 ]
 
 
